@@ -34,7 +34,11 @@ class KexCurve25519:
             return True
 
     def _perform_exchange(self, peer_key):
-        secret = self.key.exchange(peer_key)
+        try:
+            secret = self.key.exchange(peer_key)
+        except ValueError as e:
+            # the library refuses low-order points itself
+            raise SSHException("Invalid peer public key: {}".format(e))
         if constant_time.bytes_eq(secret, b"\x00" * 32):
             raise SSHException(
                 "peer's curve25519 public value has wrong order"
